@@ -1,6 +1,6 @@
 """Which properties are claimed, at what level; source of MANIFEST.json (bin/mkmanifest)."""
 
-HOOK_COMMITS = []
+HOOK_COMMITS = ["63154e1"]
 
 MC = "model_checking"
 
@@ -10,6 +10,12 @@ CHECKS = {
         "technique": "TLA+ spec ControlPlane (registry, two consul watchers, update loop) model-checked with TLC incl. liveness; TLC-generated registry histories replayed through a fake Consul into the real consul backend + main.watchBackend, recorded event trace validated by TLC against the spec; Health.tla check-multiset rule enumerated and replayed into passingServices",
         "text": "Every interleaving of registry changes, both watchers (including the health-snapshot/catalog skew) and the update loop is explored for the bounded universe and QuiescentCorrect/LastGood/Isolation plus EventuallyCorrect (liveness) are decided by TLC; the same spec generates registry histories with the table prescribed at quiescence, which are applied to a fake Consul HTTP API serving fabio's real consul backend and real update loop, comparing route.GetTable() after every change; every execution is recorded (fake-Consul events + SetTable hook, one logical clock) and must be accepted by ControlPlane_Trace with the invariants evaluated at every step. The health rule itself is enumerated over every multiset of <=3/4 checks x 28 configurations and replayed into passingServices/checksWithTagPrefix.",
         "note": "Bounded: 3 instances (two of one service with the same service id on two nodes), 5 instance states, 3 node states, 5 override texts, <=3 (quick) / 4 (thorough) changes exhaustively in the model, histories of <=2/3 changes exhaustively plus seeded random ones of 8-12 changes against the code. 'Observed' is read as 'delivered to the update loop'. Trusts TLC, the fake Consul's blocking-query semantics, the hook placement (after table.Store), Go toolchain.",
+    },
+    "C14": {
+        "category": MC,
+        "technique": "TLA+ spec Registration (Expressible/Denote) enumerated by TLC and replayed into routecmd.build -> route.NewTable; isolation decided on ControlPlane (state 'bad', invariant Isolation) and bound by the fake-Consul pipeline with rotating inexpressible tag sets + trace validation",
+        "text": "TLC enumerates every registration of a bounded token-class universe with the target it must denote or the verdict 'inexpressible'; each is pushed through the real generator and the real parser and the resulting table is compared field by field (service, prefix, protocol/address, weight, tags, options), an inexpressible one must produce no command. That one bad registration never blocks others is the invariant Isolation of ControlPlane, checked on every interleaving, and is bound to the code by running the real consul backend and update loop against a fake Consul whose 'bad' instances carry inexpressible tag sets taken from the same enumeration.",
+        "note": "Bounded token classes (3 names, 3 address forms, 6 prefixes, <=2/3 of 15 options with one option per key, <=2 of 4 other tags). Out of scope (statement silent): malformed redirect option, tags with commas/white space, redirect combined with proto. Trusts TLC, the harness's CatalogService construction, Go toolchain.",
     },
     "C05": {
         "category": MC,
